@@ -377,7 +377,6 @@ class LogicalFile:
         parent = self.physical_file._eflr_sets.get_or_make_set(
             eflr_types.AxisSet, set_name=set_name
         )
-        self._eflr_sets.try_add_set(parent)
 
         ax = eflr_types.AxisItem(
             name=name,
@@ -387,6 +386,7 @@ class LogicalFile:
             parent=parent,
             origin_reference=origin_reference or self.default_origin_reference,
         )
+        self._eflr_sets.try_add_set(parent)
 
         return ax
 
@@ -450,7 +450,6 @@ class LogicalFile:
         parent = self.physical_file._eflr_sets.get_or_make_set(
             eflr_types.CalibrationSet, set_name=set_name
         )
-        self._eflr_sets.try_add_set(parent)
 
         c = eflr_types.CalibrationItem(
             name=name,
@@ -463,6 +462,7 @@ class LogicalFile:
             parent=parent,
             origin_reference=origin_reference or self.default_origin_reference,
         )
+        self._eflr_sets.try_add_set(parent)
 
         return c
 
@@ -530,7 +530,6 @@ class LogicalFile:
         parent = self.physical_file._eflr_sets.get_or_make_set(
             eflr_types.CalibrationCoefficientSet, set_name=set_name
         )
-        self._eflr_sets.try_add_set(parent)
 
         c = eflr_types.CalibrationCoefficientItem(
             name=name,
@@ -542,6 +541,7 @@ class LogicalFile:
             parent=parent,
             origin_reference=origin_reference or self.default_origin_reference,
         )
+        self._eflr_sets.try_add_set(parent)
 
         return c
 
@@ -662,7 +662,6 @@ class LogicalFile:
         parent = self.physical_file._eflr_sets.get_or_make_set(
             eflr_types.CalibrationMeasurementSet, set_name=set_name
         )
-        self._eflr_sets.try_add_set(parent)
 
         m = eflr_types.CalibrationMeasurementItem(
             name=name,
@@ -684,6 +683,7 @@ class LogicalFile:
             parent=parent,
             origin_reference=origin_reference or self.default_origin_reference,
         )
+        self._eflr_sets.try_add_set(parent)
 
         return m
 
@@ -756,7 +756,6 @@ class LogicalFile:
             eflr_types.ChannelSet, set_name=set_name
         )
 
-        self._eflr_sets.try_add_set(parent)
 
         ch = eflr_types.ChannelItem(
             name,
@@ -774,6 +773,7 @@ class LogicalFile:
             parent=parent,
             origin_reference=origin_reference or self.default_origin_reference,
         )
+        self._eflr_sets.try_add_set(parent)
 
         if data is not None:
             self._data_dict[ch.dataset_name] = data
@@ -831,7 +831,6 @@ class LogicalFile:
         parent = self.physical_file._eflr_sets.get_or_make_set(
             eflr_types.CommentSet, set_name=set_name
         )
-        self._eflr_sets.try_add_set(parent)
 
         c = eflr_types.CommentItem(
             name=name,
@@ -839,6 +838,7 @@ class LogicalFile:
             parent=parent,
             origin_reference=origin_reference or self.default_origin_reference,
         )
+        self._eflr_sets.try_add_set(parent)
 
         return c
 
@@ -897,7 +897,6 @@ class LogicalFile:
         parent = self.physical_file._eflr_sets.get_or_make_set(
             eflr_types.ComputationSet, set_name=set_name
         )
-        self._eflr_sets.try_add_set(parent)
 
         c = eflr_types.ComputationItem(
             name=name,
@@ -911,6 +910,7 @@ class LogicalFile:
             parent=parent,
             origin_reference=origin_reference or self.default_origin_reference,
         )
+        self._eflr_sets.try_add_set(parent)
 
         return c
 
@@ -1004,7 +1004,6 @@ class LogicalFile:
         parent = self.physical_file._eflr_sets.get_or_make_set(
             eflr_types.EquipmentSet, set_name=set_name
         )
-        self._eflr_sets.try_add_set(parent)
 
         eq = eflr_types.EquipmentItem(
             name=name,
@@ -1028,6 +1027,7 @@ class LogicalFile:
             parent=parent,
             origin_reference=origin_reference or self.default_origin_reference,
         )
+        self._eflr_sets.try_add_set(parent)
 
         return eq
 
@@ -1126,7 +1126,6 @@ class LogicalFile:
         parent = self.physical_file._eflr_sets.get_or_make_set(
             eflr_types.FrameSet, set_name=set_name
         )
-        self._eflr_sets.try_add_set(parent)
 
         fr = eflr_types.FrameItem(
             name,
@@ -1141,6 +1140,7 @@ class LogicalFile:
             parent=parent,
             origin_reference=origin_reference or self.default_origin_reference,
         )
+        self._eflr_sets.try_add_set(parent)
 
         return fr
 
@@ -1175,7 +1175,6 @@ class LogicalFile:
         parent = self.physical_file._eflr_sets.get_or_make_set(
             eflr_types.GroupSet, set_name=set_name
         )
-        self._eflr_sets.try_add_set(parent)
 
         g = eflr_types.GroupItem(
             name=name,
@@ -1187,6 +1186,7 @@ class LogicalFile:
             ),
             origin_reference=origin_reference or self.default_origin_reference,
         )
+        self._eflr_sets.try_add_set(parent)
 
         return g
 
@@ -1265,7 +1265,6 @@ class LogicalFile:
         parent = self.physical_file._eflr_sets.get_or_make_set(
             eflr_types.LongNameSet, set_name=set_name
         )
-        self._eflr_sets.try_add_set(parent)
 
         ln = eflr_types.LongNameItem(
             name=name,
@@ -1287,6 +1286,7 @@ class LogicalFile:
             parent=parent,
             origin_reference=origin_reference or self.default_origin_reference,
         )
+        self._eflr_sets.try_add_set(parent)
 
         return ln
 
@@ -1324,7 +1324,6 @@ class LogicalFile:
         parent = self.physical_file._eflr_sets.get_or_make_set(
             eflr_types.MessageSet, set_name=set_name
         )
-        self._eflr_sets.try_add_set(parent)
 
         m = eflr_types.MessageItem(
             name=name,
@@ -1338,6 +1337,7 @@ class LogicalFile:
             parent=parent,
             origin_reference=origin_reference or self.default_origin_reference,
         )
+        self._eflr_sets.try_add_set(parent)
 
         return m
 
@@ -1378,7 +1378,6 @@ class LogicalFile:
         parent = self.physical_file._eflr_sets.get_or_make_set(
             eflr_types.NoFormatSet, set_name=set_name
         )
-        self._eflr_sets.try_add_set(parent)
 
         nf = eflr_types.NoFormatItem(
             name=name,
@@ -1387,6 +1386,7 @@ class LogicalFile:
             parent=parent,
             origin_reference=origin_reference or self.default_origin_reference,
         )
+        self._eflr_sets.try_add_set(parent)
 
         return nf
 
@@ -1537,7 +1537,6 @@ class LogicalFile:
         parent = self.physical_file._eflr_sets.get_or_make_set(
             eflr_types.OriginSet, set_name=set_name
         )
-        self._eflr_sets.try_add_set(parent)
 
         origins: list[eflr_types.OriginItem] = list(self._eflr_sets.get_all_items_for_set_type(eflr_types.OriginSet))
         new_origin_ref = self.next_available_origin_ref(origin_reference, origins)
@@ -1581,6 +1580,7 @@ class LogicalFile:
             name_space_version=name_space_version,
             parent=parent,
         )
+        self._eflr_sets.try_add_set(parent)
 
         if (
             len(list(self._eflr_sets.get_all_items_for_set_type(eflr_types.OriginSet)))
@@ -1644,7 +1644,6 @@ class LogicalFile:
         parent = self.physical_file._eflr_sets.get_or_make_set(
             eflr_types.ParameterSet, set_name=set_name
         )
-        self._eflr_sets.try_add_set(parent)
 
         p = eflr_types.ParameterItem(
             name=name,
@@ -1656,6 +1655,7 @@ class LogicalFile:
             parent=parent,
             origin_reference=origin_reference or self.default_origin_reference,
         )
+        self._eflr_sets.try_add_set(parent)
 
         return p
 
@@ -1761,7 +1761,6 @@ class LogicalFile:
         parent = self.physical_file._eflr_sets.get_or_make_set(
             eflr_types.PathSet, set_name=set_name
         )
-        self._eflr_sets.try_add_set(parent)
 
         p = eflr_types.PathItem(
             name=name,
@@ -1779,6 +1778,7 @@ class LogicalFile:
             parent=parent,
             origin_reference=origin_reference or self.default_origin_reference,
         )
+        self._eflr_sets.try_add_set(parent)
 
         return p
 
@@ -1837,7 +1837,6 @@ class LogicalFile:
         parent = self.physical_file._eflr_sets.get_or_make_set(
             eflr_types.ProcessSet, set_name=set_name
         )
-        self._eflr_sets.try_add_set(parent)
 
         p = eflr_types.ProcessItem(
             name=name,
@@ -1855,6 +1854,7 @@ class LogicalFile:
             parent=parent,
             origin_reference=origin_reference or self.default_origin_reference,
         )
+        self._eflr_sets.try_add_set(parent)
 
         return p
 
@@ -1897,7 +1897,6 @@ class LogicalFile:
         parent = self.physical_file._eflr_sets.get_or_make_set(
             eflr_types.SpliceSet, set_name=set_name
         )
-        self._eflr_sets.try_add_set(parent)
 
         sp = eflr_types.SpliceItem(
             name=name,
@@ -1907,6 +1906,7 @@ class LogicalFile:
             parent=parent,
             origin_reference=origin_reference or self.default_origin_reference,
         )
+        self._eflr_sets.try_add_set(parent)
 
         return sp
 
@@ -1954,7 +1954,6 @@ class LogicalFile:
         parent = self.physical_file._eflr_sets.get_or_make_set(
             eflr_types.ToolSet, set_name=set_name
         )
-        self._eflr_sets.try_add_set(parent)
 
         t = eflr_types.ToolItem(
             name=name,
@@ -1968,6 +1967,7 @@ class LogicalFile:
             parent=parent,
             origin_reference=origin_reference or self.default_origin_reference,
         )
+        self._eflr_sets.try_add_set(parent)
 
         return t
 
@@ -2040,7 +2040,6 @@ class LogicalFile:
         parent = self.physical_file._eflr_sets.get_or_make_set(
             eflr_types.WellReferencePointSet, set_name=set_name
         )
-        self._eflr_sets.try_add_set(parent)
 
         w = eflr_types.WellReferencePointItem(
             name=name,
@@ -2058,6 +2057,7 @@ class LogicalFile:
             parent=parent,
             origin_reference=origin_reference or self.default_origin_reference,
         )
+        self._eflr_sets.try_add_set(parent)
 
         return w
 
@@ -2106,7 +2106,6 @@ class LogicalFile:
         parent = self.physical_file._eflr_sets.get_or_make_set(
             eflr_types.ZoneSet, set_name=set_name
         )
-        self._eflr_sets.try_add_set(parent)
 
         z = eflr_types.ZoneItem(
             name=name,
@@ -2119,6 +2118,7 @@ class LogicalFile:
             ),
             origin_reference=origin_reference or self.default_origin_reference,
         )
+        self._eflr_sets.try_add_set(parent)
 
         return z
 
